@@ -377,7 +377,13 @@ fn ser_named_type(ty: &OwnedDataModelType, value: &Value, out: &mut Vec<u8>) -> 
                 return Err(Error::SchemaMismatch);
             }
         }
-        OwnedDataModelType::Schema => todo!(),
+        OwnedDataModelType::Schema => {
+            // the value is itself a schema: use its own serde representation
+            let schema: OwnedDataModelType =
+                serde_json::from_value(value.clone()).map_err(|_| Error::SchemaMismatch)?;
+            let bytes = postcard::to_stdvec(&schema).map_err(|_| Error::SchemaMismatch)?;
+            out.extend_from_slice(&bytes);
+        }
     }
     Ok(())
 }
